@@ -94,6 +94,9 @@ def run(ctx):
                               "abbreviations stand for, in every context), prefixed with ' and read by the crate's own reader, is (quote V) "
                               "with V the same structure")
     printtables.rule_readback(ctx, "C16-read-back")
+    ctx.rule("C16-real-read-back", "finite reals of every magnitude print as text the crate's reader takes for the same binary32 number, "
+                                   "still inexact (the printer's formatting calls are modelled on std's shortest-digits algorithm)")
+    printtables.rule_real_readback(ctx, "C16-real-read-back")
     # characters: `#\` followed by the character itself
     m_ = printtables.Mk(fb)
     for ch in "a(1 ;\"'\\#|\t\u03bb":
